@@ -1,11 +1,21 @@
 """C07 - geo-addressed packets are delivered exactly inside the destination area.
 
-Decides: the delivery decision of the GBC and GAC receivers IS the sign of the geometric function F evaluated on the
-area decoded from the packet (field by field), the packet's shape sub-type and the ego position; the three shape
-formulas of EN 302 931 as formula identities (polynomial normal form) and their use of every area parameter; the
-area-size formulas and the size guard in front of every origination and forward; the Annex D decision table and that
-no packet is emitted on a DISCARD outcome.
-Does not decide the numerical accuracy of the distance projection over the continuous plane.
+Decides: the delivery decision of the GBC and GAC receivers IS the sign of the geometric function F (deliver-iff-inside:
+every indication is built under F >= 0 evaluated on the area decoded from the packet field by field, the packet's shape
+sub-type and the ego position; it carries that area; the handlers return nothing but None or such an indication; GAC
+forwards only under F < 0); the three shape formulas of EN 302 931 as formula identities (shape-formula: polynomial
+normal form, each branch serving exactly the GBC and GAC sub-type of its shape, distances taken between area centre and
+point, calculate_distance returning (x along latitude, y along longitude) and containing a reduction of the longitude
+difference to the short way round - modulo 360 or a +-180 correction) and their use of the azimuth (uses-all-params);
+the area-size formulas, the size guard `area <= itsGnMaxGeoAreaSize` in front of every origination send and forward,
+the refusal code and GAC sharing the GBC source operations (size-control); the Annex D decision table (annex-d: F(ego)
+and F(sender) on the request's shape / area, AREA exactly when F(ego) >= 0, DISCARD exactly when ego outside and the
+sender's PV known, accurate and inside, NON-AREA only when outside; the forwarder hands the selection the packet's own
+shape and source address) and that EVERY emission of the GBC origination / forwarding functions lies under an explicit
+AREA or NON-AREA outcome - a send that bypasses the selection or sits under "not one value" fails -, handlers that
+forward without the selection applying the sender-inside discard inline.
+Does not decide the numerical accuracy of the distance projection over the continuous plane, pole behaviour, nor that
+the meridian correction is numerically right (only that one is present).
 """
 from __future__ import annotations
 
